@@ -109,6 +109,20 @@ def opSelect (args : List String) : String :=
     | _, _, _ => "bad-op"
   | _ => "bad-op"
 
+/-- `permletters <perm> <letters>` : the letters of the original atoms carried through the chosen normalizer's permutation
+(get_wyckoff_letters_original); `KeyError` when a letter has no image -/
+def opPermLetters (args : List String) : String :=
+  open Matid.Select in
+  match args with
+  | [permS, lettersS] =>
+    match parsePerm? permS, parseList? parseNat? lettersS with
+    | some perm, some letters =>
+      match letters.mapM (applyPerm perm) with
+      | some l => ",".intercalate (l.map toString)
+      | none => "KeyError"
+    | _, _ => "bad-op"
+  | _ => "bad-op"
+
 /-- `applynorm <packed map> <3n rationals>` : transformed and wrapped fractional coordinates -/
 def opApplyNorm (args : List String) : String :=
   open Matid.Select Matid.Table in
@@ -527,6 +541,7 @@ def step (line : String) : String :=
   | "prim" :: args => opPrim args
   | "wparams" :: args => opWParams args
   | "select" :: args => opSelect args
+  | "permletters" :: args => opPermLetters args
   | "applynorm" :: args => opApplyNorm args
   | "sets" :: args => opSets args
   | "idstring" :: args => opIdString args
